@@ -5,6 +5,17 @@ REAL = ["every package of /repo (instrumented scratch copy of the current workin
 STUB_SCHED = ["entropy source (keyed PRF behind crypto/rand.Reader)", "goroutine scheduler (seeded token scheduler; real goroutines used as coroutines)", "map iteration order (canonical order + tape permutation)"]
 
 CHECKS = {
+    "C03": {
+        "engine": "c03",
+        "level": "exploration",
+        "rule": "one evaluation = one Prove(+Verify) under a tape-chosen schedule; a case = (backend, curve, generated circuit, witness, nbTasks, option set, scenario in "
+                "{valid, invalid witness, hint error at invocation k, entropy error / short read at draw k}); distinct_nontrivial counts distinct case descriptors",
+        "quick": {"runs": 640, "budget_s": 220, "selftest_runs": 5, "params": {"slots": 32}},
+        "thorough": {"runs": 30000, "budget_s": 2700, "race_runs": 1500, "race_budget_s": 1500, "selftest_runs": 8, "params": {"slots": 64}},
+        "expect_probes": ["scenario:valid", "scenario:invalid-witness", "hint_error", "entropy-error", "entropy-short-read", "proof_bytes_equal_default_schedule", "opts:statzk", "opts:mismatch-htf"],
+        "components": {"real": REAL, "stub": STUB_SCHED + ["hint function under fault", "entropy source under fault (error / short read at draw k)"]},
+        "assumptions": ["completeness is explored for the circuit shapes the generator reaches (straight-line programs, 0-2 commitments, lookups, range checks, hints, wide levels)", "bounded liveness is measured in scheduling steps against the fault-free run of the same configuration (3x + 5000)"],
+    },
     "C06": {
         "engine": "c06",
         "level": "exploration",
